@@ -27,8 +27,8 @@ RULE = ("case kinds: dataflow (generated design x scheduler x inputs: exact-once
         "schedulers), methods (CL component with non-blocking methods and direct M(a)<M(b), U(x)<M(a), M(a)<U(x) "
         "constraints: every caller block of a before every caller block of b); non-trivial = >=1 ordered pair actually checked (or an error expected and seen); "
         "distinct = case digest")
-TIERS = {"quick": {"runs": 640, "budget_s": 100, "chunk": 4},
-         "thorough": {"runs": 50000, "budget_s": 1800, "chunk": 8}}
+TIERS = {"quick": {"runs": 1600, "budget_s": 100, "chunk": 4},
+         "thorough": {"runs": 300000, "budget_s": 1800, "chunk": 8}}
 REAL = ["GenDAGPass", "AstHelper read/write extraction", "all scheduling passes", "PrepareSimPass / UnrollSimPass"]
 STUB = ["design generator", "static bit-level read/write analysis of the spec (refmodel.item_rw)",
         "sys.setprofile block recorder"]
